@@ -130,6 +130,8 @@ class Contract:
         self.raises = []  # Raises
         self.invariants = {}  # loop id -> [(name, expr)]
         self.ghost_sets = []  # (objexpr, field, expr)
+        self.after_loop = {}  # loop id -> [(name, expr)] asserted (checked, then assumed) at the loop's normal exit
+        self.findings = {}  # clause name -> (finding id, case expr)
         self.assume_only = False  # external/trusted contract: never verified
         self.pure = False
         self.cases = []  # (name, expr) : verification is split per case
@@ -164,10 +166,15 @@ class Contract:
                 else:
                     self.requires.append(("pre%d" % (len(self.requires) + 1), a[0]))
             elif fn == "ensures":
-                if len(a) == 2:
-                    self.ensures.append((a[0].value, a[1]))
-                else:
-                    self.ensures.append(("post%d" % (len(self.ensures) + 1), a[0]))
+                nm = a[0].value if len(a) == 2 else "post%d" % (len(self.ensures) + 1)
+                expr = a[-1]
+                if "unless" in kw:
+                    # known finding: the clause is claimed only outside the recorded failing case
+                    self.findings[nm] = (kw["finding"].value, kw["unless"])
+                    expr = ast.BoolOp(op=ast.Or(), values=[expr, kw["unless"]])
+                    ast.copy_location(expr, a[-1])
+                    ast.fix_missing_locations(expr)
+                self.ensures.append((nm, expr))
             elif fn == "modifies":
                 self.modifies.append((a[0], [x.value for x in a[1:]]))
             elif fn == "raises":
@@ -184,6 +191,8 @@ class Contract:
                     len(self.invariants.get(a[0].value, [])) + 1
                 )
                 self.invariants.setdefault(a[0].value, []).append((name, a[-1]))
+            elif fn == "after_loop":
+                self.after_loop.setdefault(a[0].value, []).append((a[1].value, a[2]))
             elif fn == "ghost_set":
                 self.ghost_sets.append((a[0], a[1].value, a[2]))
             elif fn == "trusted":
